@@ -49,6 +49,14 @@ theorem record_length_tables (env : Env) :
   · rw [record_length_const _ _ atom_fmt_allTrunc.2.1]; decide
   · rw [record_length_const _ _ atom_fmt_allTrunc.2.2]; decide
 
+/-- `write_gro(precision=p)`: for every precision in the extracted table all fields truncate and the
+atom line is `20 + 3 (p + 1)` columns long; the table entry of the default precision is the
+default format string -/
+theorem gro_precision_tables :
+    groFmts.all (fun e => allTrunc e.2 && fmtWidth e.2 == 20 + 3 * (e.1 + 1)) = true ∧
+    groFmts.lookup groDefaultPrecision = some groFmt := by
+  decide
+
 /-! ## layouts_agree -/
 
 /-- **layouts_agree** (PDB): each column of `PDBParser._atom` covers the like-named field of the ATOM
